@@ -41,7 +41,7 @@ for _mn in ("none", "real"):
 
 
 # ---------------------------------------------------------------------------------------------------- Force.compute (C04, C06)
-def force_full():
+def force_full(layers="none"):
     return {"$obj": ("force", "Force"),
             "fields": {"options": {"$dict": {"nodeSpacing": "real", "minPos": "real", "maxPos": "real",
                                              "algorithm": lambda E, P, name: Str(["overlap"]), "density": "real", "stubWidth": "real"}},
@@ -49,7 +49,7 @@ def force_full():
                                        "fields": {"options": {"$dict": {"algorithm": lambda E, P, name: Str(["overlap"]),
                                                                         "layerWidth": "real", "density": "real", "nodeSpacing": "real",
                                                                         "stubWidth": "real"}}}},
-                       "_nodes": "slist:ref:Node", "layers": "none", "force": {"$dict": {}}}}
+                       "_nodes": "slist:ref:Node", "layers": layers, "force": {"$dict": {}}}}
 
 
 _NODE_ALL = ["Node.idealPos", "Node.currentPos", "Node.width", "Node.data", "Node.layerIndex", "Node.parent", "Node.child",
@@ -114,11 +114,19 @@ def replay(m):
     g = Force({"maxPos": None}); g.nodes(nodes); g.compute()
     layers = g.getLayers()
     stale = [k for k, n in enumerate(nodes) if n.parent is not None]
-    failed = layers is None or bool(stale)
-    return failed, "getLayers() = %s; labels still owning a stub after a single-layer layout: %r" % (
-        "None" if layers is None else "%d layer(s)" % len(layers), stale), \
-        "nodes = 9 labels at 10,12,..,26 width 12; Force({'maxPos': 60}).nodes(nodes).compute(); Force({'maxPos': None}).nodes(nodes).compute()"
+    # the same on ONE engine: compute, re-configure with room for everything, compute again
+    nodes2 = [Node(10 + 2 * k, 12) for k in range(9)]
+    h = Force({"maxPos": 60}); h.nodes(nodes2); h.compute(); h.set_options({"maxPos": None}); h.compute()
+    stale2 = [k for k, n in enumerate(nodes2) if n.parent is not None]
+    failed = layers is None or bool(stale) or bool(stale2) or h.getLayers() is None
+    return failed, "getLayers() = %s; labels still owning a stub after a single-layer layout: second engine %r, same engine re-configured %r" % (
+        "None" if layers is None else "%d layer(s)" % len(layers), stale, stale2), \
+        "9 labels at 10,12,..,26 width 12; (a) Force({'maxPos': 60}).nodes(nodes).compute(); Force({'maxPos': None}).nodes(nodes).compute()  (b) one Force: compute(); set_options({'maxPos': None}); compute()"
 """,
     # "the engine reports exactly this layering after a layout" (D2 was: never set)
     "ensures": [("reports_the_layering", "self.layers is layers__0")],
 }
+
+# the same contract from the other entry state: the engine already reports a layering (a second compute on the same engine)
+CONTRACTS["force.Force.compute@again"] = dict(CONTRACTS["force.Force.compute"], func_alias="force.Force.compute",
+                                              params={"self": force_full(layers="slist:slist:ref:Node")})
